@@ -472,6 +472,10 @@ def parent(args):
     )
     if merged.exhaustive:
         cov["exhaustive_subspace"] = True
+    try:
+        prop.finalize(cov)
+    except Exception:
+        traceback.print_exc()
     ev = dict(
         property_id=args.id,
         tier=args.tier,
